@@ -731,3 +731,191 @@ Example ex_rerun :
   let s' := age t (exec_fault (init_fs (cfg_stale Compress)) t 6 Kill) in
   (s' (POut 0), s' (PTmp 0), s' (PIn 0)) = (Absent, Junk, Old).
 Proof. vm_compute. reflexivity. Qed.
+
+(* ------------------------------------------------------------------ *)
+(* each task's strict protocol is a sub-language of the union automaton *)
+(* ------------------------------------------------------------------ *)
+Lemma sstep_file_sim : forall tk so st sp l sp',
+    sstep_file tk so st sp l = Some sp' ->
+    step_file so st (abs_phase sp) l = Some (abs_phase sp').
+Proof.
+  intros tk so st sp l sp' H.
+  destruct sp as [| | |r|r|]; destruct l; simpl in H; try discriminate;
+    try (destruct r; try discriminate);
+    repeat match type of H with
+           | (if ?b then _ else _) = _ =>
+               let E := fresh "E" in destruct b eqn:E; try discriminate
+           end;
+    inversion H; subst; clear H; simpl; auto;
+    repeat match goal with
+           | E : _ && _ = true |- _ =>
+               apply andb_true_iff in E; destruct E
+           end;
+    repeat match goal with
+           | E : negb _ = true |- _ => apply negb_true_iff in E
+           end;
+    subst; simpl; auto;
+    try (destruct so; simpl in *; try discriminate; auto);
+    try (destruct st; simpl in *; try discriminate; auto).
+Qed.
+
+Lemma sstep_sim : forall c ss ps o ss',
+    (forall i, ps i = abs_phase (ss i)) ->
+    sstep c ss o = Some ss' ->
+    exists ps', step c ps o = Some ps' /\ forall i, ps' i = abs_phase (ss' i).
+Proof.
+  intros c ss ps o ss' Hrel H. unfold sstep in H. unfold step.
+  destruct (classify o) as [k l| |]; try discriminate.
+  - destruct (sstep_file (c_task c) (c_so c k) (c_st c k) (ss k) l)
+      as [sp|] eqn:E; try discriminate.
+    inversion H; subst ss'; clear H.
+    rewrite (Hrel k). rewrite (sstep_file_sim _ _ _ _ _ _ E).
+    eexists; split; eauto. intros i. unfold pupd, supd.
+    destruct (Nat.eqb i k); auto.
+  - inversion H; subst. eexists; split; eauto.
+Qed.
+
+Lemma srun_sim : forall c t ss ps ss',
+    (forall i, ps i = abs_phase (ss i)) ->
+    srun c ss t = Some ss' ->
+    exists ps', run c ps t = Some ps' /\ forall i, ps' i = abs_phase (ss' i).
+Proof.
+  intros c; induction t as [|o t IH]; simpl; intros ss ps ss' Hrel H.
+  - inversion H; subst. eauto.
+  - destruct (sstep c ss o) as [ss1|] eqn:E; try discriminate.
+    destruct (sstep_sim c ss ps o ss1 Hrel E) as (ps1 & Hs & Hrel1).
+    rewrite Hs. eapply IH; eauto.
+Qed.
+
+Theorem accepts_task_sub : forall c n t,
+    accepts_task c n t = true -> accepts c n t = true.
+Proof.
+  intros c n t H. unfold accepts_task in H. unfold accepts.
+  apply andb_true_iff in H as (H12 & H3). rewrite H12. simpl.
+  destruct (srun c ss0 t) as [ss|] eqn:E; try discriminate.
+  destruct (srun_sim c t ss0 ps0 ss (fun _ => eq_refl) E) as (ps & Hr & Hrel).
+  rewrite Hr. rewrite forallb_forall in *. intros i Hi.
+  specialize (H3 i Hi). rewrite Hrel. destruct (ss i); simpl in *; auto;
+    discriminate.
+Qed.
+
+(* the six strict languages are inhabited (and differ) *)
+Example ex_strict_compress :
+  accepts_task (cfg_stale Compress) 1 ex_compress = true.
+Proof. vm_compute. reflexivity. Qed.
+
+Example ex_strict_repack_rejects_compress_shape :
+  accepts_task (cfg_stale Repack) 1 ex_compress = false
+  /\ accepts (cfg_stale Repack) 1 ex_compress = true.
+Proof. vm_compute. auto. Qed.
+
+Example ex_strict_split : accepts_task (cfg_clean Split) 2 ex_split = true.
+Proof. vm_compute. reflexivity. Qed.
+
+(* ------------------------------------------------------------------ *)
+(* which outputs exist after a fault: exactly those already renamed     *)
+(* ------------------------------------------------------------------ *)
+Lemma rename_makes_done : forall c t ps ps' i,
+    run c ps t = Some ps' -> In (ren i) t -> ps' i = PDone.
+Proof.
+  intros c; induction t as [|o t IH]; simpl; intros ps ps' i Hr Hin.
+  - contradiction.
+  - destruct (step c ps o) as [ps1|] eqn:Hs; try discriminate.
+    destruct Hin as [E|Hin].
+    + subst o. assert (Hd : ps1 i = PDone).
+      { unfold step, ren in Hs. simpl in Hs. rewrite Nat.eqb_refl in Hs.
+        destruct (step_file (c_so c i) (c_st c i) (ps i) LRename)
+          as [ph|] eqn:Hf; try discriminate.
+        inversion Hs; subst ps1. unfold pupd. rewrite Nat.eqb_refl.
+        destruct (ps i); simpl in Hf; try discriminate; inversion Hf; auto. }
+      apply (done_stays c t ps1 ps' i Hr Hd).
+    + eapply IH; eauto.
+Qed.
+
+Lemma no_rename_after_done : forall c t ps ps' i,
+    run c ps t = Some ps' -> ps i = PDone -> ~ In (ren i) t.
+Proof.
+  intros c; induction t as [|o t IH]; simpl; intros ps ps' i Hr Hd Hin; auto.
+  destruct (step c ps o) as [ps1|] eqn:Hs; try discriminate.
+  destruct Hin as [E|Hin].
+  - subst o. unfold step, ren in Hs. simpl in Hs. rewrite Nat.eqb_refl in Hs.
+    rewrite Hd in Hs. simpl in Hs. discriminate.
+  - destruct (done_step c ps o ps1 i Hs Hd) as (Hd1 & _).
+    eapply IH; eauto.
+Qed.
+
+Theorem outputs_by_rename :
+  forall (c : cfg) (n : nat) (t : list op) (s0 : fs) (k : nat) (f : fault)
+         (i : nat),
+    accepts c n t = true -> init_ok c s0 ->
+    let s := exec_fault s0 t k f in
+    (In (ren i) (firstn k t) -> s (POut i) = Fresh (wcount i t) false)
+    /\ (In (ren i) (skipn k t) ->
+        s (POut i) = Absent \/ s (POut i) = s0 (POut i)).
+Proof.
+  intros c n t s0 k f i Hacc Hinit s.
+  unfold s. rewrite (fault_frame c n t s0 k f (POut i) Hacc Hinit eq_refl).
+  destruct (accepts_run c n t Hacc) as (psF & Hrun & _).
+  pose proof (run_inv c s0 t [] s0 ps0 psF Hinit (inv_init s0) Hrun) as HinvF.
+  simpl in HinvF.
+  pose proof Hrun as Hrun'.
+  rewrite <- (firstn_skipn k t) in Hrun'. rewrite run_app in Hrun'.
+  destruct (run c ps0 (firstn k t)) as [ps1|] eqn:Hr1; try discriminate.
+  pose proof (run_inv c s0 (firstn k t) [] s0 ps0 ps1 Hinit (inv_init s0) Hr1)
+    as Hinv1. simpl in Hinv1.
+  destruct Hinv1 as (Hf1 & _). specialize (Hf1 i).
+  split.
+  - intros Hin.
+    pose proof (rename_makes_done c (firstn k t) ps0 ps1 i Hr1 Hin) as Hd.
+    rewrite Hd in Hf1. simpl in Hf1. destruct Hf1 as (_ & E).
+    destruct (done_stays c (skipn k t) ps1 psF i Hrun' Hd) as (_ & Hw0).
+    rewrite E. f_equal.
+    rewrite <- (firstn_skipn k t) at 2. rewrite wcount_app, Hw0. lia.
+  - intros Hin.
+    destruct (ps1 i) eqn:Eph; simpl in Hf1.
+    + destruct Hf1 as (E & _); auto.
+    + destruct Hf1 as (E & _); auto.
+    + destruct Hf1 as ([E|E] & _); auto.
+    + destruct Hf1 as ([E|E] & _); auto.
+    + destruct Hf1 as ([E|E] & _); auto.
+    + exfalso.
+      apply (no_rename_after_done c (skipn k t) ps1 psF i Hrun' Eph Hin).
+Qed.
+
+(* split with n parts: the renames come last, part by part.  A fault at the
+   j-th rename (or a kill just before it) leaves parts < j complete at their
+   output paths and parts >= j not there (absent, or still the old complete
+   file): their data exist under the temporary names only. *)
+Corollary split_parts :
+  forall (c : cfg) (n j : nat) (body : list op) (s0 : fs) (f : fault),
+    j <= n ->
+    let t := body ++ map ren (seq 0 j) ++ map ren (seq j (n - j)) in
+    accepts c n t = true -> init_ok c s0 ->
+    let s := exec_fault s0 t (length (body ++ map ren (seq 0 j))) f in
+    (forall i, i < j -> s (POut i) = Fresh (wcount i t) false)
+    /\ (forall i, j <= i < n ->
+                  s (POut i) = Absent \/ s (POut i) = s0 (POut i)).
+Proof.
+  intros c n j body s0 f Hj t Hacc Hinit s.
+  set (pre := body ++ map ren (seq 0 j)).
+  assert (Et : t = pre ++ map ren (seq j (n - j)))
+    by (unfold t, pre; rewrite app_assoc; reflexivity).
+  assert (Ef : firstn (length pre) t = pre).
+  { rewrite Et, firstn_app, firstn_all, Nat.sub_diag. simpl.
+    apply app_nil_r. }
+  assert (Es : skipn (length pre) t = map ren (seq j (n - j))).
+  { rewrite Et, skipn_app, skipn_all, Nat.sub_diag. reflexivity. }
+  split.
+  - intros i Hi.
+    destruct (outputs_by_rename c n t s0 (length pre) f i Hacc Hinit) as (H1 & _).
+    apply H1. rewrite Ef. unfold pre. apply in_or_app. right.
+    apply in_map. apply in_seq. lia.
+  - intros i Hi.
+    destruct (outputs_by_rename c n t s0 (length pre) f i Hacc Hinit) as (_ & H2).
+    apply H2. rewrite Es. apply in_map. apply in_seq. lia.
+Qed.
+
+(* non-vacuity: ex_split has this form (two parts) *)
+Example ex_split_form :
+  ex_split = firstn 15 ex_split ++ map ren (seq 0 1) ++ map ren (seq 1 (2 - 1)).
+Proof. reflexivity. Qed.
